@@ -283,6 +283,29 @@ pub fn exec(op: &str, a: &[u64]) -> Result<Outcome, String> {
             }
         }
         o.check(explained, "returned exclusion set is not the old set re-indexed for the length change (a protected position was lost, not shifted, or edited)");
+        // characters at excluded positions are never altered OR USED in an edit: some ENABLED edit kind explains the
+        // result without touching a protected position — an insertion into a gap whose two neighbours are unprotected
+        // (they are the context of the insertion), a deletion / replacement of an unprotected character, a swap of two
+        // unprotected characters
+        let prot = |i: usize| excl.contains(&i);
+        let mut legal = false;
+        for pp in 0..=pmax {
+            for ss in 0..=qmax {
+                if pp + ss > old.len() || pp + ss > rw_real.len() {
+                    continue;
+                }
+                let removed = old.len() - pp - ss;
+                let added = rw_real.len() - pp - ss;
+                let ok = match removed {
+                    0 => added > 0 && cfg.ins.is_some() && !(pp > 0 && prot(pp - 1)) && !(pp < old.len() && prot(pp)),
+                    1 => !prot(pp) && ((added == 0 && cfg.del.is_some()) || cfg.rep.is_some()),
+                    2 => added == 2 && cfg.swap && !prot(pp) && !prot(pp + 1) && rw_real[pp] == old[pp + 1] && rw_real[pp + 1] == old[pp],
+                    _ => false,
+                };
+                legal |= ok;
+            }
+        }
+        o.check(legal, "no enabled edit kind explains the result without altering a protected character or using it as the context of an insertion");
     } else {
         let mut ex = excl.clone();
         ex.sort();
